@@ -501,7 +501,7 @@ func genTimeout(seed int64, allow map[string]bool) *Scenario {
 		phases = append(phases, "ante", "ante")
 	}
 	hp.WithholdAns = phases[int(seed)%len(phases)]
-	hp.WithholdMs = 17700
+	hp.WithholdMs = 18600 // the group's own 17 s time-out, with room for a loaded machine
 	b.hand(hp)
 	return b.sc
 }
